@@ -39,7 +39,7 @@ theorem C13_default_y0 (c : Content) (cache : Cache) (h : createCache c = .ok ca
 theorem C13_static_sound (c : Content) (order : List Name) (k : Name)
     (hk : k ∈ (classify c order [] [] (omKeys c.pars)).2.2) :
     k ∈ omKeys c.pars ∨ OnlyParams c k := by
-  obtain ⟨S, D, A, heq, _, _, _, _, _, _, hg⟩ :=
+  obtain ⟨S, D, A, heq, _, _, _, _, _, _, hg, _⟩ :=
     classify_spec c order [] [] (omKeys c.pars) (fun a ha => Or.inl ha)
   rw [heq] at hk
   exact hg k hk
@@ -51,11 +51,28 @@ theorem C13_dynamic_sound (c : Content) (order : List Name) (k : Name)
     (hk : k ∈ (classify c order [] [] (omKeys c.pars)).2.1) :
     isRS c k = true ∨ (isVP c k = false ∧ ∃ d, c.derived.lookup k = some d ∧
       ∃ a ∈ d.args, a ∉ omKeys c.pars) := by
-  obtain ⟨S, D, A, heq, _, _, _, hdyn, _, _, _⟩ :=
+  obtain ⟨S, D, A, heq, _, _, _, hdyn, _, _, _, _⟩ :=
     classify_spec c order [] [] (omKeys c.pars) (fun a ha => Or.inl ha)
   rw [heq] at hk
   simp only [List.reverse_nil, List.nil_append] at hk
   exact hdyn k hk
+
+/-- **Derived parameters and assignment-defined parameters keep their value; everything else is
+    recomputed from the supplied state.**  For any supplied state and time, in the argument table
+    `_get_args` builds: every name that is not produced by a dynamic component — `time`, the state,
+    plain parameters, assignment-defined parameters and derived parameters (`cache.allPars`) — has
+    exactly the supplied / cached value, independent of the state; and every dynamic component
+    (reaction, surrogate, derived quantity outside the parameter closure, in `cache.dynOrder`) is its
+    function applied to the values its arguments have at that state. -/
+theorem C13_frozen_and_recomputed {c : Content} (hwf : WFd c) {cache : Cache}
+    (hc : createCache c = .ok cache) (vars : List (Name × Rat))
+    (hv : vars.map (·.1) = omKeys c.vars) (t : Rat) {env : Env}
+    (h : getArgsEnv c cache vars t = .ok env) :
+    (∀ n, n ∉ cache.dynOrder.flatMap (providedOf c.containers) →
+      env.lookup n = (baseEnv cache.allPars vars c.data t).lookup n) ∧
+    (∀ k ∈ cache.dynOrder, ∀ comp, c.containers.lookup k = some comp → comp.Holds k env) :=
+  let ⟨h1, h2⟩ := getArgs_consistent hwf hc vars hv t h
+  ⟨h2, h1⟩
 
 /-! ### non-vacuity -/
 
